@@ -166,6 +166,9 @@ class FolderProjectIo(ProjectIoInterface):
             format_name=saving_options.parameter_format,
             allow_overwrite=True,
         )
+        # ``result.initial_parameters`` is a different object than ``result.scheme.parameters`` if the
+        # result was loaded from file, but the file reference written to ``result.yml`` is taken from it.
+        result.initial_parameters.source_path = (result_folder / initial_parameters_path).as_posix()
         paths.append((result_folder / initial_parameters_path).as_posix())
 
         optimized_parameters_path = f"optimized_parameters.{saving_options.parameter_format}"
